@@ -189,7 +189,18 @@ func runEnc(prop string, seed uint64, tier, dir string) error {
 		if (prop == "C13" && rng.Intn(5) == 0) || (prop == "C06" && rng.Intn(6) == 0) {
 			which = 99 // a packet of package protocol
 		}
+		if (prop == "C13" || prop == "C06") && rng.Intn(8) == 0 {
+			which = 98 // a value of a record kind of package protocol (IGMP, DHCP, LLDP, 802.1Q tag, IPv6 option)
+		}
 		switch {
+		case which == 98:
+			ks := recKinds
+			if prop == "C06" { // the TLVs have no Len method
+				ks = []string{"vlan", "option", "igmp12", "igmp3q", "igmp3gr", "igmp3r", "dhcp", "lldp"}
+			}
+			k := ks[rng.Intn(len(ks))]
+			m, t := g.recValue(k)
+			v, term, kind = m, "(ERec "+t+")", "record:"+k
 		case which == 99:
 			e, k := g.ethernet()
 			var first []byte
@@ -277,6 +288,6 @@ func runEnc(prop string, seed uint64, tier, dir string) error {
 		o.Add(fmt.Sprintf("(Enc %s %s %d %s)", term, obsTerm(res), hs, listT(kidTerms)), js, kind, shape)
 	}
 	o.Meta["element_kinds_used"] = kindTotals
-	o.Meta["rule"] = "random recipes of API calls (constructors, setter calls, field assignments, adders incl. prepend) for every controller-originated message kind (flow-mod with all commands 0..255, group-mod, packet-out, port-mod, multipart requests, NXT vendor messages, bundle control, bundle add nesting depth <= 2) and stand-alone elements (all action kinds incl. conntrack nesting, match fields through every constructor, instructions, buckets, matches); boundary-biased field values, geometric list sizes; a case is distinct by kind x number of element kinds used x recipe size bucket"
+	o.Meta["rule"] = "random recipes of API calls (constructors, setter calls, field assignments, adders incl. prepend) for every controller-originated message kind; for C06 / C13 also Ethernet frames and values of the record kinds of package protocol (IGMP v1-v3, DHCP with options, LLDP, 802.1Q tag, IPv6 option); (flow-mod with all commands 0..255, group-mod, packet-out, port-mod, multipart requests, NXT vendor messages, bundle control, bundle add nesting depth <= 2) and stand-alone elements (all action kinds incl. conntrack nesting, match fields through every constructor, instructions, buckets, matches); boundary-biased field values, geometric list sizes; a case is distinct by kind x number of element kinds used x recipe size bucket"
 	return o.Close()
 }
